@@ -5,7 +5,7 @@ import json
 import numpy as np
 from fractions import Fraction
 
-from .. import canon
+from .. import canon, gen
 from ..core import call_real, frac
 
 ID = "C13"
@@ -58,8 +58,26 @@ def _gen(rng, tier, clifford=True):
 
 def cases(rng, tier):
     N = 250 if tier == "quick" else 4000
+    # two branches that reach the same classical outcome with states of equal magnitudes but different relative phase (reset of an
+    # entangled qubit, or an overwritten classical bit), followed by a phase-sensitive gate and measurement
+    for k in range(8 if tier == "quick" else 80):
+        nq = rng.randint(2, 3)
+        a, b = rng.sample(range(nq), 2)
+        instrs = [{"name": "h", "qubits": [a]}, {"name": "cx", "qubits": [a, b]}]
+        if rng.random() < 0.5:
+            instrs.append({"name": rng.choice(["s", "z", "sdg", "id"]), "qubits": [rng.choice([a, b])]})
+        if k % 2 == 0:
+            instrs += [{"name": "h", "qubits": [a]}, {"name": "reset", "qubits": [b]}]
+        else:
+            instrs += [{"name": "h", "qubits": [a]}, {"name": "measure", "qubits": [b], "clbits": [0]}, {"name": "x", "qubits": [b]},
+                       {"name": "measure", "qubits": [b], "clbits": [0]}]
+        instrs += [{"name": "h", "qubits": [a]}, {"name": "measure", "qubits": [a], "clbits": [1]}]
+        yield ("simulate", {"nq": nq, "ncl": 2, "instrs": instrs, "via": rng.choice(["func", "sampler"]), "qregs": gen.rand_regs(rng, nq),
+                            "always_oracle": True})
     for _ in range(N):
         p = _gen(rng, tier)
+        if p["nq"] > 1 and rng.random() < 0.4:
+            p["qregs"] = gen.rand_regs(rng, p["nq"])   # several quantum registers (positions are circuit-wide, not per register)
         r = rng.random()
         if r < 0.04:
             p["instrs"].insert(rng.randint(0, len(p["instrs"])), {"name": "x", "qubits": [0], "cond": True})
@@ -102,7 +120,10 @@ def search_cases(rng, tier):
 
 def _circ(payload, key="instrs"):
     from qiskit.circuit import QuantumCircuit, QuantumRegister, ClassicalRegister, Instruction, CircuitInstruction
-    regs = [QuantumRegister(payload["nq"], "q")]
+    if payload.get("qregs"):
+        regs = [QuantumRegister(sz, f"q{i}") for i, sz in enumerate(payload["qregs"])]
+    else:
+        regs = [QuantumRegister(payload["nq"], "q")]
     if payload["ncl"]:
         regs.append(ClassicalRegister(payload["ncl"], "c"))
     qc = QuantumCircuit(*regs)
